@@ -19,6 +19,16 @@ COMMON_ASSUMPTIONS = [
 ]
 
 
+# The model treats every sun/moon function as a pure function of its arguments.  That is itself
+# an obligation on the implementation: each of these properties also carries the purity theorem
+# over the effect table regenerated from /repo's AST (a cache, a module-level memo, an attribute
+# stored on an argument breaks it statically, whatever the sampled call order).
+PURITY = {"generators": ["effects"], "modules": ["Astral.Props.C20"],
+          "theorems": ["Astral.C20.pure_by_effects"]}
+PURE_PROPS = ["C01", "C02", "C03", "C04", "C05", "C06", "C07", "C08", "C09", "C10", "C11", "C12",
+              "C13", "C14"]
+
+
 def G(module, group, quick, thorough, **kw):
     d = {"module": module, "group": group, "quick": quick, "thorough": thorough}
     d.update(kw)
@@ -451,3 +461,19 @@ PROPS = {
         "trusted_extra": ["harness/effects.py (static effect summary, over-approximation)"],
     },
 }
+
+for _p in PURE_PROPS:
+    _c = PROPS[_p]
+    _c.setdefault("generators", [])
+    for _g in PURITY["generators"]:
+        if _g not in _c["generators"]:
+            _c["generators"].append(_g)
+    for _m in PURITY["modules"]:
+        if _m not in _c["lean_modules"]:
+            _c["lean_modules"].append(_m)
+    for _t in PURITY["theorems"]:
+        if _t not in _c["theorems"]:
+            _c["theorems"].append(_t)
+    _c.setdefault("trusted_extra", [])
+    if "harness/effects.py (static effect summary, over-approximation)" not in _c["trusted_extra"]:
+        _c["trusted_extra"].append("harness/effects.py (static effect summary, over-approximation)")
